@@ -3,6 +3,7 @@ package main
 import (
 	"fmt"
 	"go/types"
+	"math"
 	"strconv"
 
 	"golang.org/x/tools/go/ssa"
@@ -82,6 +83,18 @@ type zrState struct {
 func (eng *Engine) initStubs2() {
 	s := eng.stubs
 	eng.initStubsBinary()
+	// ParseFloat: float parsing is outside the claims; any value, no error.
+	s["strconv.ParseFloat"] = func(e *Exec, _ *frame, _ *ssa.Function, args []Value) Value {
+		st := args[0].(*StrV)
+		if cs, ok := st.conc(); ok && args[1].(*Term).IsConst() {
+			f, err := strconv.ParseFloat(cs, int(args[1].(*Term).k))
+			if err == nil {
+				return Tuple{e.tc.BV(math.Float64bits(f), 64), Iface{}}
+			}
+			return Tuple{e.tc.BV(0, 64), e.sentinelErr("strconv.ParseFloat: " + err.Error())}
+		}
+		return Tuple{e.freshVar("float", 64), Iface{}}
+	}
 	// strings.Replacer with single-byte patterns (what go-mc uses for SNBT
 	// escaping): exact model; the real implementation builds lookup machinery
 	// through sync.Once and generic tries that only add path explosion.
